@@ -253,3 +253,36 @@ def memory_pipeline(tier, rep):
                        "(distinct by construction, each executed from a state reached by a real call history) plus one per seeded random history; "
                        "every executed call is an evaluation.").strip()
     return tv
+
+
+def replay(rec):
+    """Re-run one recorded vector event: rebuild pre-state with ctor_range on both objects, run the call."""
+    ev = rec["event"]
+    inst = ev.get("inst", "sv_int_3")
+    kind, elem, cap = inst.rsplit("_", 2)
+    x0 = {"v": 0, "p": 0, "q": 0, "n": 0, "xs": [], "src": "a"}
+    script = []
+    if kind == "ipv":
+        for o in ("a", "b"):
+            for v in ev["pre"][o]:
+                script.append({"op": "unchecked_push_back", "o": o, "x": dict(x0, v=v), "cap": int(cap)})
+    else:
+        for o in ("a", "b"):
+            script.append({"op": "ctor_range", "o": o, "x": dict(x0, xs=ev["pre"][o]), "cap": int(cap)})
+    call = {"op": ev["op"], "o": ev["o"], "x": ev["x"], "cap": int(cap)}
+    contract = "outcome" in ev
+    if contract and ev.get("outcome") != "returned":
+        call["bad"] = True
+    script.append(call)
+    d = vlib.workdir("replay")
+    sp = os.path.join(d, "script.ndjson")
+    vlib.write_scripts([script], sp)
+    flags = ["-DVH_CAPS=" + cap] + (CONTRACT_FLAGS["checks"] if contract else [])
+    b = vlib.build("vector_driver.cpp", "vector_replay", flags=flags)
+    tp = os.path.join(d, "trace.ndjson")
+    rc, err = vlib.run([b, "replay", kind, elem, cap, sp], tp, ok_codes=None)
+    if rc != 0:
+        with open(tp, "a") as f:
+            f.write(json.dumps({"op": "trap", "rc": rc, "inst": inst, "report": err[-300:], "script": script, "events_in_script": 0}) + "\n")
+    tv = vlib.tlc_tv("VectorTrace.tla", "VectorTrace.cfg", tp, "vector_replay")
+    return tv["deviations"]
